@@ -163,10 +163,13 @@ KnownTypes == {NONE, T_PLAIN, T_PLAIN_CS, T_JSON, T_OCTET}
 IsTextPlain(ct) == ct = NONE \/ ct = T_PLAIN \/ ct = T_PLAIN_CS
 CTypeOf(hdr) == LET v == HeaderVal(hdr, H_CTYPE_LC) IN IF v = NONE THEN T_PLAIN ELSE v     \* RFC 7578, 4.4 default
 
-(* name / filename as the accessors must report them.  A Content-Disposition value the
+(* name / filename / content type as the accessors must report them.  A Content-Disposition value the
    reference encoder produced for a part of the form decodes to that part's fields; no such
    header at all means "no name, no filename" (NONE); anything else (only possible for damaged
-   bodies) is left open (UNKNOWN). *)
+   bodies: a value that is no longer the encoder's, possibly no longer UTF-8) is left open
+   (UNKNOWN): the accessor may report any value or raise the parse error, nothing else.  The
+   content type is the 7-bit header value as it stands; a value with other bytes is left open
+   in the same way. *)
 UNKNOWN == <<-2>>
 DispIndex(form, v) ==
     LET I == {i \in 1..Len(form) : EncDisp(form[i]) = v} IN IF I = {} THEN 0 ELSE CHOOSE i \in I : TRUE
@@ -181,6 +184,7 @@ FieldsOf(form, hdr) ==
 (* well-formed UTF-8 (Unicode 15, table 3-7): shortest forms only, no surrogates, <= U+10FFFF.
    Text is represented by its UTF-8 encoding, so "decodes to t" reads "is well formed and equals
    Utf8Seq(t)". *)
+IsAscii(s) == \A i \in 1..Len(s) : s[i] < 128
 Cont(x) == x >= 128 /\ x <= 191
 (* length of the sequence a lead byte announces; 0: not a lead byte *)
 SeqLen(a) == IF a < 128 THEN 1 ELSE IF a >= 194 /\ a <= 223 THEN 2 ELSE IF a >= 224 /\ a <= 239 THEN 3
@@ -212,7 +216,8 @@ CONSTANTS PartPool,      \* part records the client may add
           MaxParts,
           Sizes,         \* size arguments of stream.read(n), n >= 0
           RDelims,       \* delimiters the application may read_until on a part stream
-          MaxOps         \* consumption calls per part
+          MaxOps,        \* consumption calls per part
+          MaxRetry       \* further calls allowed on a part once a buffered accessor found it too large
 
 VARIABLES form, env, lim, body,
           edited,    \* the body was damaged on its way (one edit), so it is no longer Encode(form, env)
@@ -221,11 +226,11 @@ VARIABLES form, env, lim, body,
           cur,       \* header block of the part in hand
           pstart, pend,
           cache,     \* buffered content of the part in hand (get_data memo), NONE if not buffered
-          dead,      \* a buffered accessor of the part in hand failed: the part is not touched again
+          toolarge,  \* a buffered accessor of the part in hand failed with "body part is too large"
           nops,
           last       \* the last server-side call and what it returned
 
-vars == <<form, env, lim, body, edited, st, pos, pro, yielded, cur, pstart, pend, cache, dead, nops, last>>
+vars == <<form, env, lim, body, edited, st, pos, pro, yielded, cur, pstart, pend, cache, toolarge, nops, last>>
 
 Rec(op, n, d, c, out, why, res, name, fname, ctype) ==
     [op |-> op, n |-> n, d |-> d, c |-> c, out |-> out, why |-> why, res |-> res,
@@ -237,19 +242,19 @@ NoLim == [count |-> 0, hdr |-> 0, buf |-> 0]
 
 Init == /\ form = <<>> /\ env = NoEnv /\ lim = NoLim /\ body = <<>> /\ edited = FALSE
         /\ st = "compose" /\ pos = 0 /\ pro = TRUE /\ yielded = 0 /\ cur = <<>>
-        /\ pstart = 0 /\ pend = 0 /\ cache = NONE /\ dead = FALSE /\ nops = 0
+        /\ pstart = 0 /\ pend = 0 /\ cache = NONE /\ toolarge = FALSE /\ nops = 0
         /\ last = Plain("init", 0, <<>>, FALSE, "", "", <<>>)
 
 (* ---- client ---- *)
 AddPart(p) ==
     /\ st = "compose" /\ Len(form) < MaxParts
     /\ form' = Append(form, p)
-    /\ UNCHANGED <<env, lim, body, edited, st, pos, pro, yielded, cur, pstart, pend, cache, dead, nops, last>>
+    /\ UNCHANGED <<env, lim, body, edited, st, pos, pro, yielded, cur, pstart, pend, cache, toolarge, nops, last>>
 
 Seal(e) ==                       \* the client picks boundary / preamble / epilogue and encodes
     /\ st = "compose" /\ Encodable(form, e)
     /\ env' = e /\ body' = Encode(form, e) /\ st' = "sealed"
-    /\ UNCHANGED <<form, lim, edited, pos, pro, yielded, cur, pstart, pend, cache, dead, nops, last>>
+    /\ UNCHANGED <<form, lim, edited, pos, pro, yielded, cur, pstart, pend, cache, toolarge, nops, last>>
 
 (* ---- the wire: at most one edit (only used by the corruption instances) ---- *)
 ApplyEdit(s, i, kind, v) ==
@@ -261,13 +266,13 @@ Corrupt(i, kind, v) ==
     /\ i >= 1 /\ i <= Len(body) + (IF kind = "ins" THEN 1 ELSE 0)
     /\ (kind = "sub" => body[i] # v)
     /\ body' = ApplyEdit(body, i, kind, v) /\ edited' = TRUE
-    /\ UNCHANGED <<form, env, lim, st, pos, pro, yielded, cur, pstart, pend, cache, dead, nops, last>>
+    /\ UNCHANGED <<form, env, lim, st, pos, pro, yielded, cur, pstart, pend, cache, toolarge, nops, last>>
 
 (* ---- server: a handler configured with limits lm receives the body ---- *)
 Serve(lm) ==
     /\ st = "sealed"
     /\ lim' = lm /\ st' = "iter"
-    /\ UNCHANGED <<form, env, body, edited, pos, pro, yielded, cur, pstart, pend, cache, dead, nops, last>>
+    /\ UNCHANGED <<form, env, body, edited, pos, pro, yielded, cur, pstart, pend, cache, toolarge, nops, last>>
 
 (* ---- server: the iteration ---- *)
 D == SubSeq(body, 1, pend)             \* what the stream of the part in hand can ever deliver
@@ -280,69 +285,83 @@ NextPart ==
            /\ pos' = x.pos /\ pstart' = x.pos /\ pend' = x.pend /\ cur' = x.hdr
            /\ yielded' = (IF x.kind = "part" THEN yielded + 1 ELSE yielded)
            /\ last' = (IF x.kind = "part"
-                         THEN Rec("next", -1, <<>>, FALSE, "part", "", <<>>, f.name, f.fname, CTypeOf(x.hdr))
+                         THEN Rec("next", -1, <<>>, FALSE, "part", "", <<>>, f.name, f.fname,
+                                  IF IsAscii(CTypeOf(x.hdr)) THEN CTypeOf(x.hdr) ELSE UNKNOWN)
                          ELSE Plain("next", -1, <<>>, FALSE, x.kind, x.why, <<>>))
-    /\ pro' = FALSE /\ cache' = NONE /\ dead' = FALSE /\ nops' = 0
+    /\ pro' = FALSE /\ cache' = NONE /\ toolarge' = FALSE /\ nops' = 0
     /\ UNCHANGED <<form, env, lim, body, edited>>
 
 (* ---- server: the application consumes the part in hand ---- *)
-CanConsume == st = "part" /\ ~dead /\ nops < MaxOps
+CanConsume == st = "part" /\ nops < MaxOps + (IF toolarge THEN MaxRetry ELSE 0)
+CanStream  == CanConsume /\ ~toolarge      \* after a size failure only the buffered accessors are asked again
 Consumed(op, n, d, c, out, why, res, newpos) ==
     /\ pos' = newpos /\ nops' = nops + 1
     /\ last' = Plain(op, n, d, c, out, why, res)
     /\ UNCHANGED <<form, env, lim, body, edited, st, pro, yielded, cur, pstart, pend>>
 
-ReadSome(n) == /\ CanConsume /\ n >= 0
+ReadSome(n) == /\ CanStream /\ n >= 0
                /\ LET r == ORead(D, pos, n) IN Consumed("read", n, <<>>, FALSE, "ok", "", r.res, r.pos)
-               /\ UNCHANGED <<cache, dead>>
-ReadAll     == /\ CanConsume
+               /\ UNCHANGED <<cache, toolarge>>
+ReadAll     == /\ CanStream
                /\ LET r == ORead(D, pos, -1) IN Consumed("read", -1, <<>>, FALSE, "ok", "", r.res, r.pos)
-               /\ UNCHANGED <<cache, dead>>
+               /\ UNCHANGED <<cache, toolarge>>
 ReadUntil(d, n, c) ==
-    /\ CanConsume
+    /\ CanStream
     /\ LET r == OReadUntil(D, pos, d, n, c)
        IN  Consumed("read_until", n, d, c, IF r.err THEN "delim" ELSE "ok", "", IF r.err THEN <<>> ELSE r.res, r.pos)
-    /\ UNCHANGED <<cache, dead>>
-Exhaust     == /\ CanConsume
+    /\ UNCHANGED <<cache, toolarge>>
+Exhaust     == /\ CanStream
                /\ Consumed("exhaust", -1, <<>>, FALSE, "ok", "", <<>>, pend)
-               /\ UNCHANGED <<cache, dead>>
+               /\ UNCHANGED <<cache, toolarge>>
 
-(* get_data(): everything that is left, provided it fits the buffer limit; memoised *)
-Buffered == IF cache # NONE THEN [res |-> cache, pos |-> pos, err |-> FALSE]
+(* get_data(): everything that is left, provided it fits the buffer limit; memoised.  A part that
+   was found too large stays too large: every later call fails the same way and never hands out
+   content (neither the bytes read by the failed attempt nor what is left behind them). *)
+Buffered == IF toolarge THEN [res |-> <<>>, pos |-> pos, err |-> TRUE]
+            ELSE IF cache # NONE THEN [res |-> cache, pos |-> pos, err |-> FALSE]
             ELSE LET r == ORead(D, pos, lim.buf + 1) IN [res |-> r.res, pos |-> r.pos, err |-> Len(r.res) > lim.buf]
 GetData ==
     /\ CanConsume
     /\ LET r == Buffered
        IN  /\ Consumed("get_data", -1, <<>>, FALSE, IF r.err THEN "error" ELSE "ok", IF r.err THEN "size" ELSE "",
                        IF r.err THEN <<>> ELSE r.res, r.pos)
-           /\ cache' = (IF r.err THEN NONE ELSE r.res) /\ dead' = r.err
+           /\ cache' = (IF r.err THEN NONE ELSE r.res) /\ toolarge' = r.err
 
 (* get_text(): None unless the part is text/plain; otherwise the buffered content decoded with
-   the declared charset (UTF-8 here), the parse error if it does not decode.  The text is
-   reported as its UTF-8 encoding. *)
+   the declared charset (UTF-8 here), the parse error if it does not decode (the content stays
+   buffered).  The text is reported as its UTF-8 encoding. *)
 GetText ==
     /\ CanConsume /\ CTypeOf(cur) \in KnownTypes
     /\ IF ~IsTextPlain(CTypeOf(cur))
-         THEN Consumed("get_text", -1, <<>>, FALSE, "none", "", <<>>, pos) /\ UNCHANGED <<cache, dead>>
+         THEN Consumed("get_text", -1, <<>>, FALSE, "none", "", <<>>, pos) /\ UNCHANGED <<cache, toolarge>>
          ELSE LET r  == Buffered
                   ok == ~r.err /\ Utf8Valid(r.res)
               IN  /\ Consumed("get_text", -1, <<>>, FALSE, IF ok THEN "ok" ELSE "error",
                               IF r.err THEN "size" ELSE IF ok THEN "" ELSE "text",
                               IF ok THEN r.res ELSE <<>>, r.pos)
-                  /\ cache' = (IF r.err THEN NONE ELSE r.res) /\ dead' = ~ok
+                  /\ cache' = (IF r.err THEN NONE ELSE r.res) /\ toolarge' = r.err
+
+(* get_text() on a part whose Content-Type is not one of the encoder's (only possible for damaged
+   bodies: an unknown type, an unknown charset, bytes that are not ASCII): the outcome is left open
+   - None, text or the parse error - but it must be one of these; the part is not touched again. *)
+GetTextOpen ==
+    /\ CanConsume /\ CTypeOf(cur) \notin KnownTypes
+    /\ pos' = pos /\ nops' = MaxOps + MaxRetry
+    /\ last' = Plain("get_text", -1, <<>>, FALSE, "open", "", <<>>)
+    /\ UNCHANGED <<form, env, lim, body, edited, st, pro, yielded, cur, pstart, pend, cache, toolarge>>
 
 (* get_media() on an untouched application/json part: the whole content goes to the JSON handler *)
 GetMedia ==
-    /\ CanConsume /\ CTypeOf(cur) = T_JSON /\ pos = pstart /\ cache = NONE
+    /\ CanStream /\ CTypeOf(cur) = T_JSON /\ pos = pstart /\ cache = NONE
     /\ LET r == ORead(D, pos, -1) IN Consumed("get_media", -1, <<>>, FALSE, "ok", "", r.res, r.pos)
-    /\ UNCHANGED <<cache, dead>>
+    /\ UNCHANGED <<cache, toolarge>>
 
 Next == \/ \E p \in PartPool : AddPart(p)
         \/ \E e \in EnvPool : Seal(e)
         \/ (st = "sealed" /\ \E lm \in LimitsOf(form, env) : Serve(lm))
         \/ NextPart
         \/ \E n \in Sizes : ReadSome(n)
-        \/ ReadAll \/ Exhaust \/ GetData \/ GetText \/ GetMedia
+        \/ ReadAll \/ Exhaust \/ GetData \/ GetText \/ GetTextOpen \/ GetMedia
         \/ \E d \in RDelims, n \in Sizes \cup {-1}, c \in BOOLEAN : ReadUntil(d, n, c)
 
 Spec == Init /\ [][Next]_vars
@@ -381,12 +400,16 @@ LimitsExactAtThreshold ==
     /\ (Sent /\ last.op = "next" /\ last.out = "error") => (FirstStop > 0 /\ yielded = FirstStop - 1)
     /\ (Sent /\ last.op = "next" /\ last.out = "error") =>
          last.why = (IF HdrTooBig(FirstStop) THEN "headers" ELSE "count")
-(* ... and a buffered accessor fails iff more than lim.buf bytes were left in the part *)
+(* ... a buffered accessor fails iff more than lim.buf bytes were left in the part, and once it
+   has failed that way every later buffered access of the same part fails the same way *)
 BufferLimitExact ==
     [][((GetData \/ GetText) /\ cache = NONE /\ last'.out # "none") =>
-          /\ (last'.why = "size") = (pend - pos > lim.buf)
+          /\ ~toolarge => (last'.why = "size") = (pend - pos > lim.buf)
           /\ (Sent /\ pos = pstart) => ((last'.why = "size") = (Len(form[yielded].content) > lim.buf))
+          /\ toolarge => (last'.out = "error" /\ last'.why = "size" /\ toolarge')
           /\ last'.out = "ok" => (pos' = pend /\ last'.res = Slice(body, pos, pend))]_vars
+SizeFailureSticks ==
+    (st = "part" /\ toolarge) => (cache = NONE /\ (last.op \in {"get_data", "get_text"} => last.out \in {"error", "none", "open"}))
 
 (* what the application gets from a part is a piece of that part, in order, and the cursor
    stays inside the part *)
